@@ -324,9 +324,10 @@ class RefusingFS:
         self.armed = None
         self.n = 0
         self.fired = False
+        self.fired_in_rollback = False
 
     def arm(self, k):
-        self.armed, self.n, self.fired = k, 0, False
+        self.armed, self.n, self.fired, self.fired_in_rollback = k, 0, False, False
 
     def _count(self, what):
         if self.armed is not None:
@@ -334,6 +335,9 @@ class RefusingFS:
             self.n += 1
             if i == self.armed:
                 self.fired = True
+                # called from the `except` block of ChangeSet.do / undo: the refusal hits the ROLLBACK (a second
+                # failure, which no implementation can survive; excluded like C10's single_failure)
+                self.fired_in_rollback = sys.exc_info()[0] is not None
                 raise OSError(28, "No space left on device (injected at mutating call %d: %s)" % (i, what))
 
     def create_file(self, path):
@@ -943,6 +947,7 @@ def finish(base, project, changes, r, req, perform=True):
     finally:
         r.do_raw = au.stop()
         r.fault_fired = bool(getattr(fsc, "fired", False))
+        r.fault_in_rollback = bool(getattr(fsc, "fired_in_rollback", False))
         if hasattr(fsc, "arm"):
             fsc.arm(None)
     if stopper is not None:
